@@ -952,7 +952,7 @@ func cycleAvoiding(fn *ssa.Function, avoid *ssa.BasicBlock) *ssa.BasicBlock {
 		}
 		color[b] = 2
 	}
-	for _, b := range fn.Blocks {
+	for _, b := range blocksOf(fn) {
 		if b != avoid && color[b] == 0 {
 			dfs(b)
 		}
@@ -2651,7 +2651,7 @@ func ruleLoadPollsCtx(c *Ctx, r *Report) {
 					}
 					return false
 				}
-				for _, b := range fn.Blocks {
+				for _, b := range blocksOf(fn) {
 					cond := ifCond(b)
 					if cond == nil || len(b.Succs) != 2 {
 						continue
@@ -2686,7 +2686,7 @@ func ruleLoadPollsCtx(c *Ctx, r *Report) {
 				case len(cancelled) == 0:
 					// does anything in the loop branch on what the context said?
 					decides := false
-					for _, b := range fn.Blocks {
+					for _, b := range blocksOf(fn) {
 						cond := ifCond(b)
 						if cond == nil || !(b == call.Block() || (reachableFromSucc(b, call.Block()) && reachableFromSucc(call.Block(), b))) {
 							continue
